@@ -1,6 +1,7 @@
 /-
   C02 — Loading accepts exactly the well-formed boot informations.
 -/
+import Mb2.Props.FnsBytesRef
 import Mb2.Props.FnsMbiLoad
 import Mb2.Props.FnsBiHdr
 import Mb2.Spec
@@ -120,5 +121,10 @@ theorem load_success_iff (p : Profile) (mem : Bytes)
 example : load .dev false [16,0,0,0, 0,0,0,0, 0,0,0,0, 8,0,0,0] = .ok (.ok ⟨0, 16, 16⟩) := by decide
 example : load .dev false [4,0,0,0, 0,0,0,0] = .ok (.error (.memory .shorterThanHeader)) := by decide
 example : load .release false [16,0,0,0, 0,0,0,0, 1,0,0,0, 8,0,0,0] = .ok (.error .noEndTag) := by decide
+
+/-- `load` depends on the memory only through the declared size and the last 8 bytes of the declared region -/
+theorem load_eq_closed (p : Profile) (mem : Bytes) (hmem : mem.length ≥ 8 ∧ mem.length ≥ le32 mem 0) :
+    load p false mem = loadClosed (le32 mem 0) (le32 mem (le32 mem 0 - 8)) (le32 mem (le32 mem 0 - 4)) := by
+  rw [load_eq p mem hmem]; rfl
 
 end Mb2.C02
